@@ -28,7 +28,7 @@ RULE = ("square sparse systems of order 1..60 (quick: 1..40): SPD (Gram+shift), 
         "same matrix and the same x (every ordered pair of entry points over the seeds; budgets 0, 1, 2, n/2, n, 3n+10), each call judged with the previous x as its guess. "
         "extreme-scale = adversarial family of the RECORDED finding f64-square-range (5 systems per quick run, all five entry points): small SPD / strictly diagonally "
         "dominant systems with b or A scaled by 2^+-(520..700) or a solution beyond the f64 range; a failure carries the key exactly when the INPUT has ||b||^2, the "
-        "square of an entry of b / x0 / A or a product A_ij x_j of the exact solution outside [2^-1022, 2^1024) (never for 'budget 0 but x was modified', never for a history). "
+        "square of an entry of b / x0 / A or a product A_ij x_j of the exact solution outside [2^-1022, 2^1024) AND the failure is a symptom of that cause (Ok with a true residual above tol, Ok with non-finite x); never for 'budget 0 but x was modified', a wrong length of x, a count above the budget, never for a history. "
         "distinct = distinct executor line of an oracle case; non-trivial = order >= 2 and budget >= 1.")
 TRUSTED = ["Coq 8.16.1 kernel + vm_compute (primitive floats)", "Rust executor /verif/harness (kinds it.*)",
            "python driver: generators, exact-rational residual, numpy spectral norm / condition number, stream comparators",
@@ -54,7 +54,7 @@ MANIFEST = dict(
           "right-hand sides, guesses that are exact except in one component, non-finite guesses at budget 0, every budget 0..2n+3 on one system, and histories "
           "(two calls on the same matrix object and the same x after an operation on the matrix: executor kind it.seq, oracle only). "
           "Right-hand sides / matrices scaled by 2^+-(520..700) are searched as well; the failures there are the recorded finding f64-square-range (norm_2 squares its entries), "
-          "keyed by the input alone."),
+          "keyed by the input and granted only to the symptoms of that cause (Ok with a true residual above tol, Ok with non-finite x)."),
     note=("The drift of the residual recurrence is a theorem in the standard rounding model for CG, BiCG and BiCGSTAB (not QMR, not at binary64); on the implementation it is searched with the allowance "
           "64(k+1)eps(||A|| X + ||b||)/||b||', X taken from the float model's trace; finiteness of x is searched. The exact-arithmetic theorems treat a division by zero as a panic "
           "(the run returns nothing), where f64 produces inf/NaN (then no test can succeed: NaN <= tol is false)."),
@@ -319,7 +319,7 @@ def judge(case, s, a, tol, maxit):
         else: X = max(X, tr.X)
     unit = EPS * (spec_norm(s.dense()) * X + nb) / nbp
     allow = 64.0 * (a.k + 1) * unit
-    if unit > 0:
+    if unit > 0 and not scale_out_of_range(s):      # the statistic describes the drift allowance: systems of the recorded finding f64-square-range are left out
         STATS["max_excess_over_tol_in_allowance_units"] = max(STATS["max_excess_over_tol_in_allowance_units"], (res - tol) / ((a.k + 1) * unit))
     if res > tol * (1 + 1e-12) + allow:
         return ("Ok(%d) with true relative residual %.3e > tol %.1e + drift allowance %.3e (n=%d, ||A||=%.3g, largest iterate/update %.3g, ||b||=%.3g)"
@@ -329,12 +329,15 @@ def judge(case, s, a, tol, maxit):
 def finding_key(case, desc, decoded):
     """`f64-square-range` exactly when the INPUT has ||b||^2, the square of an entry of b / x0 / A, or a product
     A_ij * x_j of the exact solution outside the normal f64 range (iterlib.scale_out_of_range); decided from the input,
-    never from the failure.  Histories and rejected systems are never excused."""
+    never from the mere fact of failing, and only for the symptoms listed below.  Histories and rejected systems are never excused."""
     m = case.meta
     if m.get("role") == "seq" or m.get("bad") or "sys" not in m:
         return None
-    if isinstance(desc, str) and desc.startswith("budget 0 but x was modified"):
-        return None          # no square is formed on the way to that failure: never excused (narrows the key, never widens it)
+    # granted only to the documented symptoms of unscaled squares: Ok with a true residual above the tolerance (Ok(0) with x
+    # untouched because ||b|| was taken for 0) and Ok with a non-finite x (Ok(1), x = inf).  "budget 0 but x was modified", a wrong
+    # length of x, a count above the budget or a wrong budget echo form no square on the way: never excused.
+    if not (isinstance(desc, str) and desc.startswith("Ok(") and ("true relative residual" in desc or "x is not finite" in desc)):
+        return None
     return KEY_SQUARE_RANGE if scale_out_of_range(Sys.from_json(m["sys"])) else None
 
 def prepare(tier):
